@@ -93,15 +93,16 @@ extern "C" void h_SelectNode_STEPread()
  * raises an error; C14: references and nested values are read with the caller's instance set and id offset */
 extern "C" void h_Select_STEPread()
 {
-    IN(int, in_shape); IN(int, in_inlist); IN(int, in_assign); IN(int, in_add); IN(int, in_found);
+    IN(int, in_shape); IN(int, in_inlist); IN(int, in_assign); IN(int, in_add); IN(int, in_found); IN(int, in_csev);
     __CPROVER_assume(in_shape >= 0 && in_shape <= 3 && in_add >= 0);
+    __CPROVER_assume(in_csev == SEVERITY_NULL || in_csev == SEVERITY_USERMSG || in_csev == SEVERITY_INCOMPLETE || in_csev == SEVERITY_WARNING || in_csev == SEVERITY_INPUT_ERROR);
     const char *txt[4] = { "#5,", "KW(v),", "$,", "," };
     g_stream_arbitrary = 0; int n = 0; while (txt[in_shape][n]) { g_stream_script[n] = txt[in_shape][n]; n++; } g_stream_len = n;
     istream in; in._m_state = 0; in._m_have = 0; in._m_consumed = 0;
     SDAI_Select *s = (SDAI_Select *)malloc(sizeof(SDAI_Select)); s->underlying_type = 0; s->_type = (SelectTypeDescriptor *)malloc(8);
     g_member = (TypeDescriptor *)malloc(sizeof(TypeDescriptor)); g_nonref = sdaiINTEGER; g_type = sdaiINTEGER;
     InstMgrBase *insts = (InstMgrBase *)malloc(8);
-    g_in_list = in_inlist != 0; g_unique = 1; g_assign_ok = in_assign != 0; g_content_sev = SEVERITY_NULL;
+    g_in_list = in_inlist != 0; g_unique = 1; g_assign_ok = in_assign != 0; g_content_sev = (Severity)in_csev;   /* what the (generated) value reader leaves in the select's own descriptor */
     g_ref_result = in_found ? (SDAI_Application_instance *)malloc(sizeof(SDAI_Application_instance)) : ENTITY_NULL;
     g_content_reads = g_ref_calls = g_nullify_calls = 0;
     ErrorDescriptor err;
@@ -114,7 +115,8 @@ extern "C" void h_Select_STEPread()
     } else if (in_shape == 1) {
         if (in_inlist) {
             __CPROVER_assert(g_content_reads == 1 && g_content_insts == insts && g_content_add == in_add && g_content_sch != 0, "C14 the value of a typed SELECT parameter is read with the caller's instance set, id offset and schema");
-            __CPROVER_assert(r == SEVERITY_NULL && in._m_consumed == 5, "a typed parameter KEYWORD(value) of a listed type is read up to and including its closing parenthesis");
+            __CPROVER_assert(in._m_consumed == 5, "a typed parameter KEYWORD(value) of a listed type is read up to and including its closing parenthesis");
+            __CPROVER_assert((int)r <= in_csev && (int)err.severity() <= in_csev && (in_csev != SEVERITY_NULL || r == SEVERITY_NULL), "C03 what the value reader reports for the value inside KEYWORD( ) is the select's result and reaches the caller's descriptor; a clean value reads clean");
         } else
             __CPROVER_assert(r <= SEVERITY_WARNING && err.severity() <= SEVERITY_WARNING && g_content_reads == 0, "C03 a SELECT value whose type keyword is not in the select list raises an error");
     } else if (in_shape == 2)
